@@ -465,6 +465,45 @@ func parseValues(out string) map[string]uint64 {
 	return res
 }
 
+// strideSample picks at most n samples spread evenly over all of them (quick tier: n is small and this is a prefix-like
+// spread; thorough: caps the sequential re-deciding work).
+func strideSample(all []querySample, n int) []querySample {
+	if len(all) <= n {
+		return all
+	}
+	out := make([]querySample, 0, n)
+	for i := 0; i < n; i++ {
+		out = append(out, all[i*len(all)/n])
+	}
+	return out
+}
+
+// crossCheckPar splits the samples over up to 8 solver processes.
+func crossCheckPar(samples []querySample, bin []string, timeoutMs int) (checked int, disagreements []string) {
+	w := 8
+	if len(samples) < 16 {
+		return crossCheck(samples, bin, timeoutMs)
+	}
+	type res struct {
+		c int
+		d []string
+	}
+	ch := make(chan res, w)
+	for k := 0; k < w; k++ {
+		part := samples[k*len(samples)/w : (k+1)*len(samples)/w]
+		go func() {
+			c, d := crossCheck(part, bin, timeoutMs)
+			ch <- res{c, d}
+		}()
+	}
+	for k := 0; k < w; k++ {
+		r := <-ch
+		checked += r.c
+		disagreements = append(disagreements, r.d...)
+	}
+	return
+}
+
 // crossCheck re-decides the sampled queries with another solver binary; returns number checked and disagreements.
 func crossCheck(samples []querySample, bin []string, timeoutMs int) (checked int, disagreements []string) {
 	if len(samples) == 0 {
